@@ -275,9 +275,10 @@ def wJudgeFinish (s : WJudge) : String :=
     | .error _ => "ok"                    -- no configuration: the property states nothing
     | .ok raw =>
       let h := s.hist.reverse
-      if wholds raw l.thr h then "ok"
+      if wholds raw l.thr l.p0 h then "ok"
       else if !predsOk l.thr h then "fail - observed-health-not-what-the-stats-and-thresholds-state"
-      else "fail - reactions-not-as-the-property-states (alternation/stability/cool-down)"
+      else if !holds raw.toCfg (obsEvents h) then "fail - reactions-not-as-the-property-states (alternation/stability/cool-down)"
+      else "fail - reaction-without-its-effect (diagnoses still in force after unhealthy / last loaded policies not in force after healthy)"
   | none, none => "ok"
 
 /-! ## Dispatch: a case whose FIRST op is `wcfg` is a level-2 case -/
